@@ -211,7 +211,7 @@ theorem undo_apply_id (cfg : Cfg) (hc : Contract cfg) (t : Tree) (p : Plan) (g :
   have h3 := g.treeWF.toLemma
   have h4 := g.kinds.toLemma
   have h5 : GDestFree t p.rens := g.destFree
-  have hpf : preflightOk t p.rens = true := preflight_of_fresh (fresh_keys h3 hlo h5)
+  have hpf : preflight t [] p.rens = none := preflight_of_guards hlo h3 h5
   -- the content phase succeeded
   have hok := g.applyOk
   obtain ⟨t1, hcp⟩ : ∃ t1, contentPhase p.hunks t (sortedFiles p.hunks) = (.ok, t1) := by
@@ -219,7 +219,7 @@ theorem undo_apply_id (cfg : Cfg) (hc : Contract cfg) (t : Tree) (p : Plan) (g :
     | mk o t1 =>
       cases o with
       | ok => exact ⟨t1, rfl⟩
-      | _ => simp [applyPlan, hpf, hcp] at hok
+      | _ => simp [applyPlan, applyCore, hpf, hcp] at hok
   have hs := sameShape_contentPhase p.hunks (sortedFiles p.hunks) t
   rw [hcp] at hs
   simp only at hs
@@ -232,8 +232,8 @@ theorem undo_apply_id (cfg : Cfg) (hc : Contract cfg) (t : Tree) (p : Plan) (g :
   have happ : applyPlan t p = (⟨.ok, moveAll p.rens t1,
       (sortRens p.rens).map (fun r => (r.path, finalPath p.rens r.path))⟩ : Result) ∧
       (sortedFiles p.hunks).all (fun f => readable (moveAll p.rens t1) (finalPath p.rens f)) = true := by
-    unfold applyPlan at hok ⊢
-    simp only [hpf, Bool.not_true, Bool.false_eq_true, if_false, hcp, hr, backupPhase, hcur] at hok ⊢
+    unfold applyPlan applyCore at hok ⊢
+    simp only [hpf, hcp, hr, backupPhase, hcur] at hok ⊢
     by_cases hall : (sortedFiles p.hunks).all (fun f => readable (moveAll p.rens t1) (finalPath p.rens f)) = true
     · simp [hall]
     · exfalso
@@ -354,19 +354,38 @@ theorem undo_apply_id_hostile :
     ((applyUndo driverCfg hostilePlanTree hostilePlan).2.map (fun u => (u.outcome, u.tree)))
       = some (.ok, hostilePlanTree) := by decide
 
-/-- `C01_full`: the property without the rename-set guards.  What separates it from `undo_apply_id` is only that the
-    plan is one the planner can emit (`lastOnly`, `distinct`, `kinds`, `destFree`: C08/C05) — hand-made plans with two
-    renames onto one destination lose a file at apply time and cannot be undone. -/
+/-- Since repo commit 01297aa the destination guard of `G01` is no longer a hypothesis: an apply that SUCCEEDED has
+    passed the pre-flight loop, and the loop is exactly `DestFree` (`C02ren.destFree_iff_preflight_loop`).  So for every
+    plan whose renames change only the last component of distinct existing sources: apply succeeded ⇒ undo restores
+    the tree literally. -/
+theorem undo_apply_id_of_ok (cfg : Cfg) (hc : Contract cfg) (t : Tree) (p : Plan)
+    (h1 : C02ren.LastOnly p.rens) (h2 : C02ren.DistinctSources p.rens) (h3 : C02ren.TreeWF t)
+    (h4 : C02ren.KindsOk t p.rens) (hok : (applyPlan t p).outcome = .ok)
+    (hfd : (sortedFiles p.hunks).Pairwise (fun a b => a ≠ b)) :
+    ∃ u, applyUndo cfg t p = (.ok, some u) ∧ u.outcome = .ok ∧ u.tree = t := by
+  have hp : preflight t [] p.rens = none := by
+    cases hp : preflight t [] p.rens with
+    | none => rfl
+    | some o =>
+      rw [RenamePhase.applyPlan_preflight_refusal t p hp] at hok
+      rcases RenamePhase.preflight_some _ _ hp with rfl | rfl <;> cases hok
+  exact undo_apply_id cfg hc t p
+    ⟨h1, h2, h3, h4, (C02ren.destFree_iff_preflight_loop t p.rens h1 h3 h4).2 hp, hok, hfd⟩
+
+/-- `C01_full`: the property without the rename-set guards.  What separates it from `undo_apply_id_of_ok` is only that
+    the plan is one the planner can emit (`lastOnly`, `distinct`, `kinds`: C08). -/
 def C01_full : Prop :=
   ∀ (cfg : Cfg), Contract cfg → ∀ (t : Tree) (p : Plan), C02ren.TreeWF t → (applyPlan t p).outcome = .ok →
     ∃ u, applyUndo cfg t p = (.ok, some u) ∧ u.outcome = .ok ∧ u.tree = t
 
-/-- `C01_full` is false for hand-made plans: two sources, one destination -/
-theorem C01_full_witness_two_to_one :
+/-- the hand-made plan that used to refute `C01_full` (two sources, one destination: a file was lost at apply time and
+    could not be restored) is refused up front since repo commit 01297aa; the rename phase on its own still loses it -/
+theorem two_to_one_now_refused :
     let t : Tree := [([b!"a"], .file b!"A" 420), ([b!"b"], .file b!"B" 420)]
     let p : Plan := { hunks := [], rens := [⟨[b!"a"], [b!"c"], .file⟩, ⟨[b!"b"], [b!"c"], .file⟩] }
-    C02ren.TreeWF t ∧ (applyPlan t p).outcome = .ok ∧
-    (applyUndo driverCfg t p).2.map (fun u => u.tree) ≠ some t := by decide
+    C02ren.TreeWF t ∧ (applyPlan t p).outcome = .sharedDest ∧ (applyPlan t p).tree = t ∧
+    (renamePhase t [] (sortRens p.rens)).outcome = .ok ∧
+    (renamePhase t [] (sortRens p.rens)).tree = [([b!"c"], .file b!"B" 420)] := by decide
 
 /-- THE OLD DEFECT (before "fix: undo renames dangling symlinks back"): with the `exists()` guard, which follows links,
     a renamed dangling symlink is skipped — undo reported success and the link kept its new name; with the lstat
